@@ -48,20 +48,26 @@ theorem notSpreadArg (first : Node) (hf : ∀ a k, first ≠ .mk .spreadArg a k)
   rcases first with ⟨k, a, ks⟩
   cases k <;> first | rfl | exact absurd rfl (hf _ _)
 
-/-- An option the user wrote — in any static spelling — is never injected again. -/
+/-- An option the user wrote — in any static spelling — is never injected again (and nothing is derived for it). -/
 theorem C20_explicit_option_kept (as las aas oas pas : List String) (callee first ta : Node) (props restArgs : List Node)
-    (name : String) (v : Node) (h : props.any (isOptionNamed · name) = true) (hf : ∀ a k, first ≠ .mk .spreadArg a k) :
+    (name : String) (v : Node) (h : props.any (isOptionNamed · name) = true) :
     let call := Node.mk .call as [callee, .mk .list las (first :: .mk .arg aas [.mk .object oas [.mk .list pas props]] :: restArgs), ta]
-    injectOption call name v = call := by
+    canInjectOption call name = false ∧ injectOption call name v = call := by
   intro call
-  have h1 := notSpreadArg first hf
-  simp [call, injectOption, h, h1]
+  have hc : canInjectOption call name = false := by
+    simp only [call, canInjectOption]
+    split
+    · rfl
+    · simp [h]
+  exact ⟨hc, by simp [injectOption, hc]⟩
 
 /-- A call with a spread among its first two arguments is left alone. -/
 theorem C20_spread_arguments_untouched (as las sas : List String) (callee ta e : Node) (restArgs : List Node) (name : String) (v : Node) :
     let call := Node.mk .call as [callee, .mk .list las (.mk .spreadArg sas [e] :: restArgs), ta]
-    injectOption call name v = call := by
-  simp [injectOption]
+    canInjectOption call name = false ∧ injectOption call name v = call := by
+  intro call
+  have hc : canInjectOption call name = false := by simp [call, canInjectOption]
+  exact ⟨hc, by simp [injectOption, hc]⟩
 
 /-- An options expression that is not an object literal is spread AFTER the injected key, so whatever it provides wins. -/
 theorem C20_options_expression_spread_last (as las aas : List String) (callee first ta e : Node) (restArgs : List Node)
@@ -69,9 +75,17 @@ theorem C20_options_expression_spread_last (as las aas : List String) (callee fi
     injectOption (.mk .call as [callee, .mk .list las (first :: .mk .arg aas [e] :: restArgs), ta]) name v
       = .mk .call as [callee, .mk .list las (first :: nArg (nObject [nKV (nIdentName name) v, nSpreadElement e]) :: restArgs), ta] := by
   have h1 := notSpreadArg first hf
+  have hc : canInjectOption (.mk .call as [callee, .mk .list las (first :: .mk .arg aas [e] :: restArgs), ta]) name = true := by
+    simp only [canInjectOption, List.take, List.any, h1, Bool.false_or, Bool.or_false]
+    simp only [List.getElem?_cons_succ, List.getElem?_cons_zero, Bool.false_eq_true, if_false]
+    split
+    · rename_i hh
+      simp only [Option.some.injEq, Node.mk.injEq, List.cons.injEq, and_true, true_and] at hh
+      exact absurd hh.2 (he _ _)
+    · rfl
   unfold injectOption
-  simp only [List.take, List.any, h1, Bool.false_or, Bool.or_false]
-  simp only [List.getElem?_cons_succ, List.getElem?_cons_zero, Bool.false_eq_true, if_false]
+  simp only [hc, Bool.not_true, Bool.false_eq_true, if_false]
+  simp only [List.getElem?_cons_succ, List.getElem?_cons_zero]
   split
   · rename_i hh
     simp only [Option.some.injEq, Node.mk.injEq, List.cons.injEq, and_true, true_and] at hh
